@@ -810,6 +810,19 @@ def battery(nodes, cls):
             out[f"ex{k}"] = [bigtree.tree_to_dict(r), bigtree.tree_to_nested_dict(r), bigtree.tree_to_newick(r),
                              [list(t) for t in bigtree.yield_tree(r)] if hasattr(bigtree, "yield_tree") else None,
                              [list(map(str, t)) for t in bigtree.tree_to_dict(r, parent_key="p", name_key="n").items()]]
+            # readers asked for something that is not there: which refusal (if any) is part of "the same result"
+            def refusal(f):
+                try:
+                    f()
+                    return "accepted"
+                except Exception as e:  # noqa: BLE001
+                    return type(e).__name__
+            out[f"rf{k}"] = [refusal(lambda: bigtree.prune_tree(r, "zz/missing")),
+                             refusal(lambda: bigtree.prune_tree(r, [r.path_name, "zz_missing"])),
+                             refusal(lambda: bigtree.get_subtree(r, "zz_missing")),
+                             refusal(lambda: bigtree.find_relative_path(r, "zz_missing")),
+                             refusal(lambda: bigtree.shift_nodes(r.copy(), ["zz_missing"], [r.node_name + "/q"])),
+                             refusal(lambda: bigtree.find_name(r, nodes[0].node_name) if False else bigtree.find_names(r, "zz"))]
             out[f"se{k}"] = [_ids(idx, bigtree.find_names(r, nodes[0].node_name)),
                              [idx.get(id(bigtree.find_full_path(r, x.path_name))) for x in nodes if x.root is r],
                              _ids(idx, bigtree.find_children(r, lambda nd: True)),
